@@ -92,6 +92,22 @@ def convex_problem(case):
     ub = np.array([box_of(b, v)[1] for b in case["boxes"]], dtype=float)
     x0 = np.array([start_value(b, s, v) for b, s in zip(case["boxes"], case["start"])],
                   dtype=float)
+    # letter "far": interior starts of variables with an infinite side are moved far away
+    # along that side (gradient norms of 1e8..1e13 at the start)
+    if case.get("far"):
+        for i in range(n):
+            if case["start"][i] == "in":
+                if not np.isfinite(ub[i]):
+                    x0[i] = xs[i] + case["far"]
+                elif not np.isfinite(lb[i]):
+                    x0[i] = xs[i] - case["far"]
+    # letter "zero": the whole problem is translated so that the named bound value is
+    # exactly 0.0 (0 is the one float that is falsy / has no sign: a special value for
+    # parsers of bounds and for relative steps)
+    z = case.get("zero")
+    if z:
+        off = {"lo": t["lo"], "up": t["up"], "deg": t["deg"]}[z]
+        lb, ub, x0, xs = lb - off, ub - off, x0 - off, xs - off
     fam = case["fam"]
     lam = float(np.linalg.eigvalsh(H)[-1])
     if fam == "qp":
@@ -178,7 +194,7 @@ def _bench(name):
 
 BENCH = ("ackley", "beale", "griewank", "quartic", "rastrigin", "rosenbrock", "sphere",
          "styblinski_tang")
-NONCONVEX = BENCH + ("oscil", "expsum", "badscale", "linear")
+NONCONVEX = BENCH + ("oscil", "expsum", "badscale", "linear", "coswell")
 # objectives whose gradient is constant over long stretches: every candidate pair has
 # y = 0 and is rejected, so runs carry an *empty* memory for several iterations
 PAIRLESS = ("biglinear", "huber")
@@ -197,6 +213,23 @@ def nonconvex_fg(name, n):
     if name == "badscale":
         w = np.array([1e6 if i % 2 == 0 else 1e-3 for i in range(n)])
         return (lambda x: 0.5 * np.sum(w * (x - 0.3) ** 2), lambda x: w * (x - 0.3))
+    if name == "coswell":
+        # smooth, non-convex, with negative-curvature regions between shallow wells:
+        # pairs get rejected and line searches fail one after the other
+        om = np.array([1.26 + 0.11 * i for i in range(n)])
+        ph = np.array([2.33 + 0.37 * i for i in range(n)])
+        am = np.array([1.54 - 0.2 * (i % 3) for i in range(n)])
+        return (lambda x: float(np.sum(am * np.cos(om * x + ph)) + 1.1e-3 * np.sum(x ** 4)),
+                lambda x: -am * om * np.sin(om * x + ph) + 4.4e-3 * x ** 3)
+    if name == "coswell2":
+        # instance and start taken from an independently written demonstration
+        # (seeded/C18-4): a rejected pair immediately followed by a failed line search
+        om = np.array([1.2596188837126614, 0.889168254601383])
+        ph = np.array([2.333902289715485, 2.367093398284133])
+        am = np.array([1.5414151151769264, 0.9963467456275489])
+        cc = 0.0011143388500270248
+        return (lambda x: float(np.sum(am * np.cos(om * x + ph)) + cc * np.sum(x ** 4)),
+                lambda x: -am * om * np.sin(om * x + ph) + 4 * cc * x ** 3)
     if name in ("linear", "biglinear"):
         w = np.array([(-1.0) ** i * (1.0 + 0.37 * i) for i in range(n)])
         return (lambda x: w @ x, lambda x: w.copy())
@@ -227,6 +260,8 @@ def nonconvex_problem(case):
         lo, up = (-6.0 - v, 4.0 + 0.3 * v)
     if case["fam"] in PAIRLESS:
         lo, up = (-21.0 - v, 17.0 + 0.5 * v)
+    if case["fam"] == "coswell":
+        lo, up = (-9.0 - v, 8.0 + 0.5 * v)
     if bl == "free":
         lb = np.full(n, -INF)
         ub = np.full(n, INF)
@@ -245,6 +280,10 @@ def nonconvex_problem(case):
         base = np.array([-5.0 + 0.3 * i + 0.1 * v for i in range(n)])
     if case["fam"] in PAIRLESS:
         base = np.array([7.0 * ((-1.0) ** (i + 1)) + 0.9 * i + 0.1 * v for i in range(n)])
+    if case["fam"] == "coswell":
+        base = np.array([5.2 * ((-1.0) ** (i + 1)) + 0.17 * i + 0.13 * v for i in range(n)])
+    if case["fam"] == "coswell2":
+        base = np.array([-5.21753330983786, 5.3847609028709975])
     base = np.clip(base, np.where(np.isfinite(lb), lb + 0.05, -INF),
                    np.where(np.isfinite(ub), ub - 0.05, INF))
     x0 = base.copy()
